@@ -68,6 +68,8 @@ PROPS["C10"] = dict(
     harness=[dict(sub="c10", profile="debug")],
     rule="random integer control polygons in [-8,8]^2 (1/8 all-equal, 1/8 collinear, 1/8 start=end, 1/8 coincident "
          "control point), parameters k/16, integer affine maps; every operation of line/quadratic/cubic is one case; "
+         "lengths also against a 1024-sample polyline; 8000 / 60000 f32 lattice curves (coincident control points, as they are "
+         "and under an affine map) for the same identities numerically; "
          "non-trivial = control points not all equal; distinct = distinct (op, operands) text",
     trusted_base=["Model/Bezier.v follows line.rs / quadratic_bezier.rs / cubic_bezier.rs operation by operation over Q"],
     assumptions=["exact (rational) arithmetic in the theorems; f64 rounding only enters outside the exactness domain"],
@@ -99,7 +101,10 @@ PROPS["C12"] = dict(
     harness=[dict(sub="c12", profile="debug")],
     rule="all ordered pairs of segments with integer endpoints in {0..3}^2 (quick, 65536 pairs) / {0..4}^2 (thorough), "
          "then random segments in [-50,50]^2 with a collinear-endpoint bias; curve queries on random f64 curves with "
-         "constructed crossings; f32 line x cubic / quadratic queries on lattice curves moved by an affine map (generic, "
+         "constructed crossings; every cubic against the point curve at one of its own points, in both orders; line x "
+         "quadratic with an exactly vanishing quadratic term (control point at the mean distance from a lattice line: 6000 / "
+         "40000) through line_intersections_t / line_intersections / line_segment_intersections_t / the raised cubic; the "
+         "Model/QuadLine.v correspondence (lattice quadratics x axis-parallel lines, 3000 / 24000); f32 line x cubic / quadratic queries on lattice curves moved by an affine map (generic, "
          "degree-elevated quadratics, linear-derivative cubics) with a constructed transversal line (soundness to 1e-3 of the "
          "curve's size, both crossings reported; K16 known); Triangle::{contains_point, intersects_line_segment, intersects}, "
          "axis-aligned line intersections, intersects_line / overlaps_line / overlaps_segment / contains_segment, "
@@ -256,7 +261,9 @@ PROPS["C04"] = dict(
     rule="jobs = {6 fill entry points, 6 stroke entry points (joins/caps rotating)} x {square, bow-tie + open triangle, "
          "curved, curved with 2 attributes, empty path, single point, random paths} + fill/stroke of rectangle, circles "
          "(incl. radius 0 and 50), ellipse, empty rectangle; per job: un-faulted run on pre-filled buffers, refusal of the "
-         "k-th vertex for every k (every k-th when > 60 vertices in the quick tier), u16 buffers pre-filled to 65535-j; "
+         "k-th vertex for every k (every k-th when > 60 vertices in the quick tier), u16 buffers pre-filled to 65535-j, "
+         "simple_builder, vertex offsets, a closure as vertex constructor, the NoOutput builder, variable-width strokes "
+         "(attribute 0) through the entry points that carry attributes; "
          "non-trivial = trace with more than 2 calls",
     exhaustive_note="every fault position k for each listed job (thorough tier; quick tier subsamples jobs with > 60 vertices)",
     trusted_base=["Model/GeomBuilder.v follows BuffersBuilder in geometry_builder.rs; tools/gen.py skeleton translator"],
@@ -464,7 +471,9 @@ PROPS["C20"] = dict(
     harness=[dict(sub="c20", profile="debug")],
     rule="random lattice paths (0..3 sub-paths of 1..6 points in [-4,8]^2, open and closed, 1 in 10 empty) hatched at angle "
          "0 with random offset sequences from {0.25, 0.375, 0.5, 0.7, 1/3, 1, 2.5} and random uv origins, compared exactly; "
-         "every third iteration a curved path at a random angle with regular hatches and dots checked against the hit test; "
+         "every third iteration a curved path at a random angle with regular hatches and dots checked against the hit test, the "
+         "library's RegularHatchingPattern / RegularDotPattern against hand-written patterns with the same intervals, a reused "
+         "Hatcher; "
          "empty / single-point inputs; non-trivial = at least one segment emitted",
     trusted_base=["Model/Hatch.v follows hatching.rs (EventsBuilder, hatch, update_sweep_line, hatch_line) at angle 0"],
     assumptions=["offsets returned by the pattern are positive until it stops (a non-positive offset ends the hatching)",
@@ -531,7 +540,9 @@ PROPS["C09"] = dict(
     harness=[dict(sub="c09", profile="debug"), dict(sub="c09", profile="release")],
     rule="per scalar type (f32, f64): quadratics and cubics with lattice or random control points, tolerances "
          "{10, 1, 0.25, 0.1, 0.01, 0.001}, deliberate degeneracies (start == end, coincident / collinear / overshooting "
-         "control points, hairpins, loops, all points equal); elliptic arcs (radii 0.5..20, sweeps up to +-7 rad, "
+         "control points, hairpins, loops, all points equal); SVG arcs (endpoint form: radii of either sign, too small "
+         "for the chord, all flags, rotated) through SvgArc::for_each_flattened(_with_t) against an arc computed "
+         "independently of lyon; elliptic arcs (radii 0.5..20, sweeps up to +-7 rad, "
          "rotations); path-level adapters on random programs; non-trivial = control points not all equal",
     trusted_base=["Model/Flatten.v follows the loops of for_each_flattened_with_t / Flattened / FlattenedT; Base/F32.v (f32 and f64 rounding)"],
     assumptions=["oracle values (step counts, parameters) are whatever the real code computed: their adequacy for the "
@@ -559,7 +570,9 @@ PROPS["C16"] = dict(
     harness=[dict(sub="c16", profile="debug")],
     rule="random programs (1..3 sub-paths, lines / quadratics / cubics, 0..3 attributes with values 100 apart so that stale "
          "data is visible, every third program starts sub-paths with a curve) x tolerances {1, 0.25, 0.05} x random integer "
-         "affine maps; non-trivial = program contains a curve",
+         "affine maps, through Flattened::new / Transformed::new, the Build trait's .flattened / .transformed, "
+         "Path::builder()'s own adapters and with_svg().flattened / .transformed + set_transform; non-trivial = program "
+         "contains a curve",
     trusted_base=["Model/Flatten.v (fb_run / fi_run) follows builder::Flattened, private::flatten_*_bezier, iterator::Flattened"],
     assumptions=["finite coordinates and attributes"],
 )
@@ -618,7 +631,10 @@ PROPS["C01"] = dict(
     rule="every closed polygon with 3 vertices and every polygon (closed / open alternating) with 4 vertices on the 3x3 "
          "(quick) / 4x4 (thorough) lattice - all coincident / collinear / repeated-vertex / bow-tie degeneracies of that "
          "size - with the configuration (fill rule, orientation, tolerance, entry point) rotating with the case index; "
-         "random multi-sub-path lattice paths, stars, nested and edge-sharing squares, non-lattice polygons; every case is "
+         "random multi-sub-path lattice paths, stars, nested and edge-sharing squares, non-lattice polygons, tangles, rounded "
+         "T-junctions (K17), shapes with notches from the top (pending merge vertices) over self-crossing sub-paths lower "
+         "down (4000 / 30000), meandering monotone polygons; every other fill goes through one long-lived tessellator, half "
+         "of them append to buffers that already hold a geometry and are read back through the index buffer; every case is "
          "checked directly on ~850 sample points; a rotating subset goes through the Coq checker (all scan lines); "
          "non-trivial = at least one triangle produced",
     exhaustive_note="polygons with 3 and 4 vertices on the stated lattice (direct check on all; verified checker on a rotating subset in the quick tier)",
